@@ -21,8 +21,8 @@ def shapeOf (j : Option Json) : R Gen.C14.Shape :=
   | some v => do
     let s ← rawStr v
     if s == "gen" then pure Gen.C14.shape
-    else if s == "pinned" then pure { initAnchor := .now, missAnchor := .now, hitChecksType := false }
-    else if s == "repaired" then pure { initAnchor := .created, missAnchor := .created, hitChecksType := true }
+    else if s == "pinned" then pure { initAnchor := .now, missAnchor := .now, hitChecksType := false, hitChecksMethod := false }
+    else if s == "repaired" then pure { initAnchor := .created, missAnchor := .created, hitChecksType := true, hitChecksMethod := true }
     else throw s!"unknown shape {s}"
 
 def cfgOf (a : Json) : R Cfg := do
@@ -30,14 +30,13 @@ def cfgOf (a : Json) : R Cfg := do
          declares := (← matrix (← field a "declares")), decodes := (← matrix (← field a "decodes")) }
 
 def rejectName : Reject → String
-  | .cursorBad => "cursorBad" | .cursorExpired => "cursorExpired" | .callMissing => "callMissing"
-  | .callBad => "callBad" | .callExpired => "callExpired" | .callMismatch => "callMismatch"
+  | .tokenRejected => "tokenRejected" | .callMissing => "callMissing"
   | .callType => "callType" | .stateDecode => "stateDecode"
 
 def outcomeJson : Outcome → Json
   | .rejected r => obj [("rejected", Json.str (rejectName r))]
   | .served m rc c k => obj [("served", obj [("m", ofNat m), ("content", ofNat rc.content), ("stype", ofOpt ofNat rc.stype),
-      ("cid", ofNat c.cid), ("pos", ofNat c.pos), ("created", ofNat c.created), ("writer", ofNat c.writer),
+      ("minted", ofNat rc.method), ("cid", ofNat c.cid), ("pos", ofNat c.pos), ("created", ofNat c.created), ("writer", ofNat c.writer),
       ("cancel", ofBool k)])]
 
 def cachesJson (W : World) : Json :=
@@ -52,7 +51,7 @@ def stepOf (j : Json) : R Step := do
     let stype ← match fieldOpt j "stype" with
       | none => pure none
       | some v => do pure (some (← nat v))
-    pure (.init (← natF j "w") (← identOf (fieldOpt j "id")) (← natF j "m") ⟨(← natF j "content"), stype⟩)
+    pure (.init (← natF j "w") (← identOf (fieldOpt j "id")) (← natF j "m") (← natF j "content") stype)
   | "cont" =>
     let cur ← match fieldOpt j "cur" with
       | none => pure CurRef.junk
@@ -73,7 +72,7 @@ def runAll (cfg : Cfg) : World → List Step → List Json → List Json
       | .cont w rq => obj [("out", outcomeJson (serveCont cfg W w rq).2),
                            ("cold", outcomeJson (serveCont cfg W.emptied w rq).2),
                            ("caches", cachesJson W'), ("ncur", ofNat W'.cursors.length)]
-      | .init _ _ _ _ => obj [("caches", cachesJson W'), ("ncur", ofNat W'.cursors.length)]
+      | .init _ _ _ _ _ => obj [("caches", cachesJson W'), ("ncur", ofNat W'.cursors.length)]
       | .tick _ => Json.null
     runAll cfg W' rest (o :: acc)
 
@@ -90,6 +89,8 @@ def handle (fn : String) (a : Json) : R Json := do
     pure (obj [("initAnchor", Json.str (if Gen.C14.shape.initAnchor = .created then "created" else "now")),
                ("missAnchor", Json.str (if Gen.C14.shape.missAnchor = .created then "created" else "now")),
                ("hitChecksType", ofBool Gen.C14.shape.hitChecksType),
+               ("hitChecksMethod", ofBool Gen.C14.shape.hitChecksMethod),
+               ("callBindsMethod", ofBool Gen.C14.callBindsMethod),
                ("cacheTtl0", ofNat (Gen.C14.cacheTtl 0))])
   | _ => throw s!"unknown function C14.{fn}"
 
